@@ -71,7 +71,15 @@ pub const OPTSETS: [Opts; 4] = [
 pub fn mk_parser<'a>(d: &'a dyn Dialect, o: Opts) -> Parser<'a> {
     let mut p = Parser::new(d);
     let tc = o.trailing.unwrap_or(d.supports_trailing_commas());
-    p = p.with_options(ParserOptions::new().with_trailing_commas(tc).with_unescape(o.unescape));
+    // the two builder orders are equivalent by contract (C14 checks that explicitly); the harness
+    // uses both, so that an order-dependent builder shows in every oracle
+    static FLIP: std::sync::atomic::AtomicUsize = std::sync::atomic::AtomicUsize::new(0);
+    let opts = if FLIP.fetch_add(1, std::sync::atomic::Ordering::Relaxed) % 2 == 0 {
+        ParserOptions::new().with_trailing_commas(tc).with_unescape(o.unescape)
+    } else {
+        ParserOptions::new().with_unescape(o.unescape).with_trailing_commas(tc)
+    };
+    p = p.with_options(opts);
     if let Some(l) = o.limit {
         p = p.with_recursion_limit(l);
     }
